@@ -33,6 +33,7 @@ Dispatch(o) ==
     [] o.name = "WalkStop"  -> WalkStop
     [] o.name = "Tick"      -> Tick
     [] o.name = "Relay"     -> Relay
+    [] o.name = "RelaySelf" -> RelaySelf
     [] o.name = "Cleanup"   -> Cleanup(o.skip)
     [] OTHER                -> FALSE
 
